@@ -69,6 +69,9 @@ pub struct Responder {
     pub search_mode: Option<Mode>,
     /// node list used for find_node answers when different from `node_list`
     pub find_node_list: Option<NodeList>,
+    /// addresses this peer stops naming from the given instant on
+    pub forget: Vec<(SocketAddr, u64)>,
+    now_cache: u64,
 }
 
 impl Responder {
@@ -91,6 +94,8 @@ impl Responder {
             name_requester: false,
             search_mode: None,
             find_node_list: None,
+            forget: vec![],
+            now_cache: 0,
         }
     }
 
@@ -116,6 +121,7 @@ impl Responder {
                     .universe
                     .iter()
                     .filter(|(_, a)| *a != self.addr && (*a != from || self.name_requester))
+                    .filter(|(_, a)| !self.forget.iter().any(|(f, t)| f == a && self.now_cache >= *t))
                     .cloned()
                     .collect();
                 v.sort_by_key(|(id, _)| xor_dist(id, target));
@@ -157,6 +163,7 @@ impl Peer for Responder {
     }
     fn on_datagram(&mut self, ctx: &mut PeerCtx, bytes: &[u8], from: SocketAddr) {
         let p = krpc::parse(bytes);
+        self.now_cache = ctx.now_ms;
         self.received.push((ctx.now_ms, from, p.clone()));
         if !p.valid || p.y != 'q' || !self.is_up(ctx.now_ms) {
             return;
